@@ -14,5 +14,11 @@ def run(rep, tier, seed):
         if len(s2) < 2: s2.append({'program': case['program']})
         if fail: rep.violation('program directions', str([s[1] for s in case['program']['stmts']]), '%s: %s' % (case['program']['stmts'], fail), {'kind': 'program', 'case': case, 'failure': fail})
     rep.add_bounded('programs: forward and reverse sweep per direction', m, len(k), 'corpus programs on P=3 directions with distinct base points: forward value and reverse-sweep adjoint of each direction equal the single-direction evaluation (same seed slice)', s2, 'programs <= 6 ops, P=3, D=3')
+    m3 = 0; k3 = set(); s3 = []
+    for case, fail in misc_checks.factorization_directions(random.Random(6250 + seed), tier):
+        m3 += 1; k3.add(str(sorted(case.items())))
+        if len(s3) < 2: s3.append(case)
+        if fail: rep.violation('factorization directions:%s' % case['factorization'], case.get('mode', ''), '%s: %s' % (case, fail), {'kind': 'factorization', 'case': case, 'failure': fail})
+    rep.add_bounded('factorizations per direction (forward and reverse)', m3, len(k3), 'qr, qr_full, cholesky, lu, eigh, svd, inv, det, logdet on P directions with different base matrices (for eigh the last direction has an exactly repeated eigenvalue): forward outputs and the reverse-sweep adjoint through the traced factorization equal the single-direction runs', s3, 'sizes 2-3, D<=3, P<=3')
     rep.extra['explanation'] = 'direction-parametricity of the kernels is what licenses the one-batch-cell abstraction of the C01/C02 proofs (checked by the engine: any non-trivial batch subscript makes a kernel leave the subset); the per-direction claim for whole programs is bounded'
     return 0
